@@ -85,6 +85,8 @@ def probes():
     P['ts_threshold=0'] = (ts0, {'timestamp': vmrun.NOW + 1000}, push(b'\x01') + op('CHECK_TIMESTAMP') + wr(b'Z'), [b'Z'])
     def ts1000(cfg): cfg.ts = 2000
     P['ts_threshold=2000'] = (ts1000, {'timestamp': vmrun.NOW + 1000}, push(b'\x01') + op('CHECK_TIMESTAMP') + wr(b'Z'), [b'Z'])
+    def tsneg(cfg): cfg.ts = -5
+    P['ts_threshold=-5'] = (tsneg, {'timestamp': vmrun.NOW + 1000}, push(b'\x01') + op('CHECK_TIMESTAMP') + wr(b'Z'), [b'Z'])
     P['ts_threshold=default'] = (lambda cfg: None, {'timestamp': vmrun.NOW + 1000}, push(b'\x01') + op('CHECK_TIMESTAMP') + wr(b'Z'), [b'Z'])
     def ep(cfg): cfg.epoch = 5000
     c = (vmrun.NOW + 1000).to_bytes(5, 'big')
@@ -99,6 +101,18 @@ def probes():
     body = op('DEF') + u1(250) + u2(len(fn)) + fn + op('CALL') + u1(250)
     P['eval_return=on'] = (evret, {}, body, [b'Z'])
     P['eval_return=off'] = (lambda cfg: None, {}, body, [b'Z'])
+    # ... and with the EVAL itself inside block constructs / evaluated scripts within that function: the RETURN still
+    # ends the whole function when eval_return is on, and only the evaluated script when it is off
+    inner_ctx = ['IF', 'IF_ELSE.if', 'IF_ELSE.else', 'TRY', 'EXCEPT', 'LOOP', 'EVAL', 'MERKLEVAL', 'TAPROOT']
+    combos = [(c,) for c in inner_ctx] + [('IF', 'LOOP'), ('TRY', 'IF_ELSE.else'), ('EXCEPT', 'TRY'), ('LOOP', 'IF'), ('EVAL', 'IF'), ('IF', 'EVAL')]
+    for combo in combos:
+        e = push(op('RETURN')) + op('EVAL')
+        for cname in reversed(combo):
+            e = CONTEXTS[cname](e)
+        fn2 = e + op('TRUE') + wr(b'Z')
+        body2 = op('DEF') + u1(251) + u2(len(fn2)) + fn2 + op('CALL') + u1(251)
+        P['eval_return=on/' + '>'.join(combo)] = (evret, {}, body2, [b'Z'])
+        P['eval_return=off/' + '>'.join(combo)] = (lambda cfg: None, {}, body2, [b'Z'])
     def plug(cfg): cfg.sigexts = ('l1', 'l2')
     sigops = {'GET_MESSAGE': op('GET_MESSAGE') + b'\x00' + op('POP0'),
               'SIGN': push(SEED) + op('SIGN') + b'\x00' + op('POP0'),
@@ -117,6 +131,21 @@ def probes():
     big = op('TRY_EXCEPT') + u2(len(push(bytes(41)))) + push(bytes(41)) + u2(len(op('FALSE') + wr(b'Z'))) + op('FALSE') + wr(b'Z')
     P['max_item_size=40'] = (lim, {}, big, [b'Z'])
     return P
+
+
+def want_top(pname):
+    if pname.startswith('flag') and pname != 'flag10=on' and pname != 'flag10=off':
+        return (lambda ob: ob[1][0][1] is None) if pname.endswith('=off') else (lambda ob: ob[1][0][1] is not None)
+    if pname == 'flag10=off': return lambda ob: ob[2] == '-'
+    if pname == 'flag10=on': return lambda ob: ob[2] == '7'
+    Z = {'ts_threshold=0': 'LBff', 'ts_threshold=-5': 'LBff', 'ts_threshold=2000': 'LBff', 'ts_threshold=default': 'LB00',
+         'epoch_threshold=5000': 'LBff', 'epoch_threshold=default': 'LB00', 'disallow_OP_EVAL': 'LB00', 'max_item_size=40': 'LB00',
+         'contract': 'LB6261', 'check_template plugin': 'LBff'}
+    if pname in Z: return lambda ob: ob[1][0][1] == Z[pname]
+    if pname.startswith('eval_return=on'): return lambda ob: ob[1][0][1] is None
+    if pname.startswith('eval_return=off'): return lambda ob: ob[1][0][1] == 'LBff'
+    if pname.startswith('sigext:'): return lambda ob: ob[2] == '1,2'
+    return None
 
 
 def observable(out: str, keys):
@@ -157,6 +186,15 @@ def run(ctx: Ctx) -> Result:
     top = {}
     for (pname, cfg, cache, nest, b, keys), o in zip(cases, outs):
         if nest == (): top[pname] = observable(o, keys)
+    # what the supplied configuration must mean, stated outright for the top-level placement (the nested placements are
+    # then compared with it): a flag that is off leaves its cache key unwritten, thresholds decide as documented, ...
+    for (pname, cfg, cache, nest, b, keys), o in zip(cases, outs):
+        if nest != (): continue
+        w = want_top(pname)
+        if w is not None and not (top[pname][0] == 'OK' and w(top[pname])) and len(res.violations) < 10:
+            res.violations.append({'input': {'probe': pname, 'nesting': [], 'cfg': cfg.line(), 'cache': vmrun.cache_str(cache, False), 'script': b.hex()},
+                                   'expected': 'the supplied flag / threshold / plugin / contract governs the probe instruction as documented (probe: ' + pname + ')',
+                                   'observed': str(top[pname]), 'how_to_run': './check C09 --replay <this file>'})
     table = {}
     for (pname, cfg, cache, nest, b, keys), o in zip(cases, outs):
         res.note_case((pname, nest))
@@ -257,6 +295,7 @@ def replay(ctx: Ctx, payload) -> bool:
     o = vmrun.in_big_thread(vmrun.run_impl, cfg, cache, bytes.fromhex(inp['script']))
     t = vmrun.in_big_thread(vmrun.run_impl, cfg, cache, pb)
     print('nested', observable(o, keys)); print('top   ', observable(t, keys))
-    if inp['probe'].startswith('sigext:') and vmrun.fields(t).get('plog') != '1,2':
+    w = want_top(inp['probe'])
+    if w is not None and not (observable(t, keys)[0] == 'OK' and w(observable(t, keys))):
         return False
     return observable(o, keys) == observable(t, keys)
